@@ -178,6 +178,8 @@ def boundary_scenarios(work, rng, tier):
     s.add_file("/dup2", s.files["t7"])
     s.add_link("/hl", "/r3")
     s.add_link("/hl2", "/hl")
+    s.add_link("/hl_zero_block", "/z%d" % [i for i, n in enumerate(gen.sizes_around(bs)) if n >= bs][0])      # a sparse (extended) file inode with several names
+    s.add_link("/hl_zero_tail", "/z%d" % [i for i, n in enumerate(gen.sizes_around(bs)) if 0 < n < bs][0])
     out.append((s, ["-b", str(bs)]))
     # all inode types + xattrs
     s = gen.Scenario(work, "b_types")
